@@ -452,6 +452,13 @@ func (u *Unit) assumeTyping(st *State, v Val) {
 			st.assume(fmt.Sprintf("(and (<= 0 %s) (<= %s %s) (<= 0 %s) (<= 0 %s) (<= %s %s) (=> (= %s 0) (= %s 0)))", b, b, st.alloc, o, ln, ln, c, b, c))
 		case "iface.t":
 			st.assume(fmt.Sprintf("(and (<= 0 %s) (=> (= %s 0) (= %s 0)))", t, t, v.Terms[i+1]))
+			if impls := u.eng.sealedImpls(l.T); impls != nil {
+				alts := []Term{sEq(t, "0")}
+				for _, it := range impls {
+					alts = append(alts, sEq(t, sInt(int64(u.eng.typeTag(it)))))
+				}
+				st.assume(sOr(alts...))
+			}
 		case "":
 			if l.T == nil {
 				continue
@@ -592,7 +599,22 @@ func (u *Unit) materialize(st *State, v Val) Val {
 			nv := v
 			nv.Terms = append([]Term(nil), v.Terms...)
 			nv.Terms[i] = n
-			u.abstraction(fmt.Sprintf("%s: interior pointer escaped; the escaped alias is not tracked", u.name))
+			// snapshot alias: the fresh reference points to a cell holding the current value of
+			// the interior location (writes through either side afterwards are not reflected)
+			if v.Ptr != nil && v.T != nil && derefType(v.T) != nil && len(v.Terms) == 1 {
+				cur := u.load(st, Val{T: v.T, Terms: []Term{"?interior"}, Ptr: v.Ptr}, token.NoPos)
+				np := &Ptr{Kind: PObj, Ref: n, Root: derefType(v.T)}
+				locs, _ := u.locsOf(np)
+				if len(locs) == len(cur.Terms) {
+					for k, l := range locs {
+						st.assume(sEq(u.readLoc(st, l), cur.Terms[k]))
+					}
+				}
+				nv.Ptr = np
+				u.abstraction(fmt.Sprintf("%s: interior pointer escaped; modelled as a snapshot alias", u.name))
+			} else {
+				u.abstraction(fmt.Sprintf("%s: interior pointer escaped; the escaped alias is not tracked", u.name))
+			}
 			return nv
 		}
 	}
@@ -661,8 +683,29 @@ func (u *Unit) load(st *State, pv Val, pos token.Pos) Val {
 				st.assume(t)
 			}
 		}
+		if ti := u.typeInvFor(target); ti != nil {
+			if t, err := u.evalBool(st, &SpecEnv{vars: map[string]Val{"val": v}, pkg: u.eng.pkgByPath(ti.Pkg)}, ti.Expr); err == nil {
+				st.assume(t)
+			}
+		}
 		return v
 	}
+}
+
+func (u *Unit) typeInvFor(t types.Type) *FieldInv {
+	if len(u.eng.cs.TypeInvs) == 0 || t == nil {
+		return nil
+	}
+	if _, ok := t.(*types.Named); !ok {
+		return nil
+	}
+	k := shortTypeKey(t)
+	for _, ti := range u.eng.cs.TypeInvs {
+		if ti.Type == k {
+			return ti
+		}
+	}
+	return nil
 }
 
 func (u *Unit) fieldInvFor(p *Ptr) *FieldInv {
@@ -732,6 +775,14 @@ func (u *Unit) store(st *State, pv Val, v Val, pos token.Pos) {
 				u.fail(fmt.Sprintf("%s: fieldinv: %v", fi.Where, err))
 			} else {
 				u.oblige(st, "field-inv", fi.Field, t, pos, "value stored to "+fi.Type+"."+fi.Field+" satisfies the field invariant "+fi.Expr.String(), nil, fi.Where)
+			}
+		}
+		if ti := u.typeInvFor(v.T); ti != nil {
+			t, err := u.evalBool(st, &SpecEnv{vars: map[string]Val{"val": v}, pkg: u.eng.pkgByPath(ti.Pkg)}, ti.Expr)
+			if err != nil {
+				u.fail(fmt.Sprintf("%s: typeinv: %v", ti.Where, err))
+			} else {
+				u.oblige(st, "type-inv", "", t, pos, "stored "+ti.Type+" value satisfies the type invariant "+ti.Expr.String(), nil, ti.Where)
 			}
 		}
 		for i, l := range locs {
